@@ -8,7 +8,7 @@ use crate::sym;
 use desert_core::Error;
 
 proof! {
-    //@ props=C13,C03 tier=quick bounds=E3-values-read-as-E5(two-appended-constructors);payload-symbolic
+    //@ props=C13,C03 tier=thorough bounds=E3-values-read-as-E5(two-appended-constructors);payload-symbolic
     fn c13_extended_reads_old() unwind(4) {
         for_shapes::<E3>(0, 0, |v| {
             let mut r = Buf::new();
